@@ -5,6 +5,7 @@ import (
 	"github.com/metrico/qryn/reader/logql/logql_transpiler_v2/shared"
 	"github.com/metrico/qryn/reader/plugins"
 	sql "github.com/metrico/qryn/reader/utils/sql_select"
+	"time"
 )
 
 type InitClickhousePlanner struct {
@@ -24,8 +25,9 @@ func (i *InitClickhousePlanner) Process(ctx *shared.PlannerContext) (sql.ISelect
 		sql.NewSimpleCol("samples.value", "value"),
 		sql.NewSimpleCol("intDiv(samples.timestamp_ns, 1000000)", "timestamp_ms"),
 	).From(sql.NewSimpleCol(ctx.SamplesTableName, "samples")).AndWhere(
-		sql.Gt(sql.NewRawObject("samples.timestamp_ns"), sql.NewIntVal(ctx.From.UnixNano())),
-		sql.Le(sql.NewRawObject("samples.timestamp_ns"), sql.NewIntVal(ctx.To.UnixNano())),
+		// Prometheus selects [hints.Start, hints.End] in milliseconds, both ends included
+		sql.Ge(sql.NewRawObject("samples.timestamp_ns"), sql.NewIntVal(ctx.From.UnixNano())),
+		sql.Lt(sql.NewRawObject("samples.timestamp_ns"), sql.NewIntVal(ctx.To.UnixNano()+int64(time.Millisecond))),
 		clickhouse_planner.GetTypes(ctx),
 	).OrderBy(sql.NewOrderBy(sql.NewRawObject("fingerprint"), sql.ORDER_BY_DIRECTION_ASC),
 		sql.NewOrderBy(sql.NewRawObject("samples.timestamp_ns"), sql.ORDER_BY_DIRECTION_ASC))
